@@ -21,7 +21,10 @@ func init() {
 }
 
 func runRoundTrip(o opts, out *Output, sig int) {
-	out.Imports = "From Verif Require Import Base.ListX Obf.Obfuscate Otlp.Equiv."
+	out.Imports = "From Verif Require Import Base.ListX Obf.Obfuscate Otlp.Equiv Otap.Tables Otap.Attrs."
+	var tb strings.Builder
+	tb.WriteString("Definition table_cases : list tcase := [\n")
+	nt := 0
 	r := NewRng(o.seed)
 	stats := map[string]int{}
 	signal := []string{"traces", "logs", "metrics"}[sig]
@@ -65,6 +68,19 @@ func runRoundTrip(o opts, out *Output, sig int) {
 				break
 			}
 			outItems = cr.Trees
+			if sig < 2 && cr.Decoded != nil {
+				itemTy := int32(41)
+				if sig == 1 {
+					itemTy = 31
+				}
+				if tc, ok := tableCase(res.Recs, itemTy, cr.Decoded); ok {
+					if nt > 0 {
+						tb.WriteString(";\n")
+					}
+					tb.WriteString(" " + tc)
+					nt++
+				}
+			}
 			if nc > 0 {
 				sb.WriteString(";\n")
 			}
@@ -85,5 +101,15 @@ Definition rt_propfail := Eval vm_compute in failing (fun c : list tree * list t
 Print rt_propfail.
 `)
 	out.Lists = append(out.Lists, "rt_propfail")
+	if sig < 2 {
+		tb.WriteString("\n].\n")
+		// the type tcase is defined in the check text; emit definitions in order
+		parts := strings.SplitN(tableCheckCoq, "Definition lookup_attrs", 2)
+		out.Coq.WriteString(parts[0])
+		out.Coq.WriteString(tb.String())
+		out.Coq.WriteString("Definition lookup_attrs" + parts[1])
+		out.Lists = append(out.Lists, "table_mismatch")
+		stats["table_cases"] = nt
+	}
 	out.Extra["stats"] = stats
 }
